@@ -94,6 +94,20 @@ class PROP(E2E):
             else:
                 ops.append(cligen.call_op(("RHR", j & 0xFFFF, 1), R="d" + cligen.frame("tcp", j & 0xFFFF, slave, bytes([3, 2, v >> 8, v & 255])).hex())); wants.append("OK:RHR:%d" % v)
         seqs.append(Case(cligen.cli_line("tcp", slave, ops), {"stage": "seq", "wants": wants, "proto": "tcp"}))
+        # server side: the transport accepts the reply only a few bytes per write (a TLS wrapper, a small pipe, a congested socket):
+        # the peer still gets the whole reply the service produced, byte for byte
+        for _ in range(80 if tier == "quick" else 800):
+            proto = rng.choice(["tcp", "rtu"])
+            req, rsp = rng.choice(shapes)
+            if proto == "rtu" and not cligen.rtu_supported_req(req):
+                continue
+            slave, tid = rng.randrange(256), rng.randrange(65536)
+            exc = rng.random() < 0.25
+            svc = "x=%d" % rng.randrange(1, 12) if exc else "r=" + mb.show_rsp(rsp)
+            reply = cligen.frame(proto, tid, slave, cligen.exc_pdu(mb.req_fc(req), int(svc[2:])) if exc else mb.spec_rsp_pdu(rsp))
+            g = rng.choice([1, 2, 3, 5, 8])
+            W = ",".join((["p"] if rng.random() < 0.3 else []) + ["a%d" % g] for _ in range((len(reply) + g - 1) // g + 1)) if False else ",".join(x for _ in range((len(reply) + g - 1) // g + 1) for x in ((["p"] if rng.random() < 0.3 else []) + ["a%d" % g]))
+            seqs.append(Case("SRV %s d%s %s - %s" % (proto, cligen.frame(proto, tid, slave, mb.spec_req_pdu(req)).hex(), W, svc), {"stage": "srvpieces", "reply": reply.hex(), "proto": proto, "g": g}))
         step = max(1, len(cs) // (len(seqs) + 1))
         for i, d in enumerate(seqs):
             cs.insert(min(len(cs), (i + 1) * step + i), d)
@@ -104,6 +118,9 @@ class PROP(E2E):
         st = m.get("stage", 0)
         if "PANIC" in (c.impl or ""):
             return "panic"
+        if st == "srvpieces":
+            got = "".join(t[2:] for t in (c.impl or "").split(",") if t.startswith("W:"))
+            return None if got == m["reply"] else "transport accepting %d byte(s) per write: the peer received %s, the reply the service produced is %s" % (m["g"], got[:80] or "nothing", m["reply"][:80])
         if st == "seq":
             rs = [cligen.res_and_w(x)[0] for x in cligen.split_results(c.impl)]
             for i, (got, want) in enumerate(zip(rs + ["<missing>"] * len(m["wants"]), m["wants"])):
@@ -140,4 +157,4 @@ class PROP(E2E):
         return None
 
     def nontrivial(self, c):
-        return c.meta.get("stage", 0) in (1, 2, "direct", "seq")
+        return c.meta.get("stage", 0) in (1, 2, "direct", "seq", "srvpieces")
